@@ -1,0 +1,127 @@
+//go:build verif
+
+package chunkinfo
+
+import (
+	"context"
+
+	"github.com/gauss-project/aurorafs/pkg/boson"
+	"github.com/gauss-project/aurorafs/pkg/chunkinfo/pb"
+)
+
+// Accessors for the C17 harness (availability records never overclaim): canonical copies of
+// the in-memory tables and synchronous entry points of two message handlers. Add-only; nothing
+// here is compiled without the build tag `verif`.
+
+// VerifBits is a copy of one bit vector (Len, backing bytes).
+type VerifBits struct {
+	Len int
+	B   []byte
+}
+
+// VerifSource is a copy of one sourceInfo.
+type VerifSource struct {
+	PyramidSource string
+	ChunkSource   map[string]VerifBits
+}
+
+// VerifTables is a copy of the presence (ct), discover (cd), source (cs) and pyramid (cp) tables.
+type VerifTables struct {
+	Presence map[string]map[string]VerifBits // rootCid -> overlay -> vector
+	Overlays map[string][]string             // rootCid -> overlays in insertion order
+	Discover map[string]map[string]VerifBits
+	Source   map[string]VerifSource
+	HashData map[string][2]uint // rootCid -> {hashMax, chunkMax}
+	Chunk    map[string]uint    // cid -> reference count
+}
+
+func verifBytes(b []byte) []byte { return append([]byte{}, b...) }
+
+// VerifDumpTables copies the tables under their read locks.
+func (ci *ChunkInfo) VerifDumpTables() VerifTables {
+	t := VerifTables{
+		Presence: map[string]map[string]VerifBits{},
+		Overlays: map[string][]string{},
+		Discover: map[string]map[string]VerifBits{},
+		Source:   map[string]VerifSource{},
+		HashData: map[string][2]uint{},
+		Chunk:    map[string]uint{},
+	}
+	ci.ct.RLock()
+	for root, m := range ci.ct.presence {
+		mm := map[string]VerifBits{}
+		for o, bv := range m {
+			if bv == nil {
+				mm[o] = VerifBits{Len: -1}
+				continue
+			}
+			mm[o] = VerifBits{Len: bv.Len(), B: verifBytes(bv.Bytes())}
+		}
+		t.Presence[root] = mm
+	}
+	for root, l := range ci.ct.overlays {
+		var s []string
+		for _, o := range l {
+			s = append(s, o.String())
+		}
+		t.Overlays[root] = s
+	}
+	ci.ct.RUnlock()
+	ci.cd.RLock()
+	for root, m := range ci.cd.presence {
+		mm := map[string]VerifBits{}
+		for o, d := range m {
+			if d == nil || d.bit == nil {
+				mm[o] = VerifBits{Len: -1}
+				continue
+			}
+			mm[o] = VerifBits{Len: d.bit.Len(), B: verifBytes(d.bit.Bytes())}
+		}
+		t.Discover[root] = mm
+	}
+	ci.cd.RUnlock()
+	ci.cs.RLock()
+	for root, si := range ci.cs.presence {
+		vs := VerifSource{PyramidSource: si.PyramidSource, ChunkSource: map[string]VerifBits{}}
+		for o, bv := range si.ChunkSource {
+			if bv == nil {
+				vs.ChunkSource[o] = VerifBits{Len: -1}
+				continue
+			}
+			vs.ChunkSource[o] = VerifBits{Len: bv.Len(), B: verifBytes(bv.Bytes())}
+		}
+		t.Source[root] = vs
+	}
+	ci.cs.RUnlock()
+	ci.cp.RLock()
+	for root, h := range ci.cp.hashData {
+		t.HashData[root] = [2]uint{h.hashMax, h.chunkMax}
+	}
+	for c, n := range ci.cp.chunk {
+		t.Chunk[c] = n
+	}
+	ci.cp.RUnlock()
+	return t
+}
+
+// VerifIsDownload is ct.isDownload(rootCid, self): the "fully downloaded" test used by Init and
+// by the discover cleaner.
+func (ci *ChunkInfo) VerifIsDownload(rootCid boson.Address) bool {
+	return ci.ct.isDownload(rootCid, ci.addr)
+}
+
+// VerifOnChunkPyramidResp runs onChunkPyramidResp (what sendPyramid does once a peer has
+// streamed its pyramid) with the given entries.
+func (ci *ChunkInfo) VerifOnChunkPyramidResp(ctx context.Context, rootCid, peer boson.Address, hashes, chunks [][]byte) error {
+	resps := make([]pb.ChunkPyramidResp, 0, len(hashes))
+	for i := range hashes {
+		resps = append(resps, pb.ChunkPyramidResp{Hash: hashes[i], Chunk: chunks[i]})
+	}
+	return ci.onChunkPyramidResp(ctx, nil, rootCid, peer, resps)
+}
+
+// VerifOnFindChunkInfo runs onFindChunkInfo (what handlerChunkInfoResp does for a response
+// addressed to this node).
+func (ci *ChunkInfo) VerifOnFindChunkInfo(ctx context.Context, rootCid, overlay boson.Address, presence map[string][]byte) {
+	ci.onFindChunkInfo(ctx, nil, rootCid, overlay, presence)
+}
